@@ -15,4 +15,4 @@ Definition x_encode_auth := encode_auth b64_encode.
 Definition x_decode_auth := decode_auth b64_decode.
 
 Extraction "xc18.ml" x_open_store x_step x_candidates x_run_sched x_to_hostname x_saves x_entry_bytes x_fs_step x_encode_auth x_decode_auth
-  json_quote json_unquote render_file retire open_bytes save_steps failed_save_steps cut_at exec_all fget dget b64_encode b64_decode mode_file mode_dir.
+  json_quote json_unquote render_file retire open_bytes open_dynamic ds_route save_steps failed_save_steps cut_at exec_all fget dget b64_encode b64_decode mode_file mode_dir.
